@@ -2,6 +2,7 @@ import EinoV.Basic.JsonUtil
 import EinoV.Model.C16
 import EinoV.Model.C16Keys
 import EinoV.Model.C16Slices
+import EinoV.Model.C16Resume
 import EinoV.Expected.C16
 
 namespace EinoV.Oracle.C16
@@ -59,9 +60,19 @@ def optJson (o : Opt) : Json :=
   Json.mkObj [("ty", (o.ty : Json)), ("vals", J.mkNats o.vals), ("handlers", J.mkNats o.handlers),
               ("paths", J.mkArr (o.paths.map J.mkStrs))]
 
-def parseCall (j : Json) : JE CallW := do
+/-- "ask": "" (an ordinary call) | "interrupt" (with "at": the path of the node that interrupts on
+    its first execution in this call) | "resume" (the call carries the checkpoint id of the last
+    "interrupt" call before it) -/
+def parseAsk (j : Json) : JE Ask := do
+  match J.strD j "ask" "" with
+  | "" => pure .plain
+  | "interrupt" => pure (.interruptAt (← (J.arrD j "at").mapM J.asStr))
+  | "resume" => pure .resume
+  | a => throw s!"bad ask {a}"
+
+def parseCall (j : Json) : JE CallP := do
   pure { g := (← parseNodes (← J.arr j "g")), ixs := (← J.natList j "ixs"),
-         par := (← parseParadigm (J.strD j "paradigm" "")) }
+         par := (← parseParadigm (J.strD j "paradigm" "")), ask := (← parseAsk j) }
 
 /-- {"op":"base","ty":n,"vals":[…],"handlers":[…]} | {"op":"designate","src":i,"paths":[[…]…]} -/
 def parseBuildOp (j : Json) : JE (BuildOp × Option Opt) := do
@@ -102,14 +113,15 @@ def storeOps (c : Json) : JE (List StoreOp) := do
     let os ← js.mapM parseOpt
     pure ((js.zip os).map (fun (j, o) => StoreOp.fresh o.ty o.vals (J.natD j "spare" 0) o.handlers o.paths))
 
-/-- case: {"store":[opt…] | "build":[op…], "calls":[{"g":[node…],"ixs":[i…],"paradigm":s}…]}  →
+/-- case: {"store":[opt…] | "build":[op…], "calls":[{"g":[node…],"ixs":[i…],"paradigm":s,"ask":s,"at":[…]}…]}  →
     {"results":[{"err":…,"entries":[…]}…], "store":[opt…], "arrays":[[cell…]…]}
     (`arrays`: per Option of the store, the cells `[0, cap)` of its value array after the calls) -/
 def handle (c : Json) : JE Json := do
   let ops ← storeOps c
   let calls ← (← J.arr c "calls").mapM parseCall
   let b := buildStore ops (VHeap.empty, [])
-  let r := runCallsSW Expected.C16.facts Expected.C16.keyFacts Expected.C16.sliceFacts goGrowAny b.1 b.2 calls
+  let r := runCallsSW Expected.C16.facts Expected.C16.keyFacts Expected.C16.resumeFacts Expected.C16.sliceFacts
+    goGrowAny none b.1 b.2 calls
   pure <| Json.mkObj [("results", J.mkArr (r.1.map resultJson)),
                       ("store", J.mkArr (r.2.1.map (fun o => optJson (o.abs r.2.2)))),
                       ("arrays", J.mkArr (b.2.map (fun o => J.mkNats (r.2.2.cells o.vh))))]
